@@ -356,7 +356,15 @@ class Check:
                        "-rss_limit_mb=3000", "-artifact_prefix=" + art + "/", "-print_final_stats=1",
                        "-entropic=0", "-verbosity=0", "-close_fd_mask=0"]
                 if plan.get("dict"):
-                    cmd.append("-dict=" + plan["dict"])
+                    # the repository's dictionary plus the harness' own tokens
+                    from . import fuzzplan as _fp
+                    merged = os.path.join(d, "merged.dict")
+                    with open(merged, "wb") as g:
+                        g.write(open(plan["dict"], "rb").read())
+                        g.write(b"\n")
+                        for tok in getattr(_fp, "EXTRA_TOKENS", []):
+                            g.write(b'"' + b"".join(b"\\x%02x" % c for c in tok) + b'"\n')
+                    cmd.append("-dict=" + merged)
                 if plan.get("len_control") is not None:
                     cmd.append("-len_control=%d" % plan["len_control"])
                 env = dict(os.environ)
